@@ -261,3 +261,11 @@ impl<T: Debug + Clone + SegtreeItem<M>, M: Debug> Segtree<T, M> {
         format!("{:?}", (0..self.n).map(|i| self.ask(i, i)).collect::<Vec<_>>())
     }
 }
+
+#[cfg(feature = "verif")]
+impl<T, M> Segtree<T, M> {
+    /// verification hook: the implicit-tree node array and the logical length
+    pub fn verif_nodes(&self) -> (&[T], usize) {
+        (&self.data, self.n)
+    }
+}
